@@ -18,12 +18,13 @@ theorem gOf_v {ds : DSymData} (hs : ValidTables ds) {i d : Nat} (hi : i < ds.dim
 
 theorem specG_agrees (r : Proto.RawSym) (h : inDomain r = true) :
     ∃ ds, r.toSym = .ok ds ∧ ValidSym ds ∧ 1 ≤ ds.size ∧ 1 ≤ ds.dim ∧
+      ds.view.isConnected = true ∧
       (specG r).size = (gOf ds).size ∧ (specG r).dim = (gOf ds).dim ∧
       (∀ i d, i ≤ ds.dim → 1 ≤ d → d ≤ ds.size → (specG r).op i d = (gOf ds).op i d) ∧
       (∀ i d, i < ds.dim → 1 ≤ d → d ≤ ds.size → (specG r).v i d = (gOf ds).v i d) := by
-  obtain ⟨ds, hdec, hs, hsz, hdim, _, hag⟩ := DSymVerif.C03.decode_raw_valid r h
+  obtain ⟨ds, hdec, hs, hsz, hdim, hcon, hag⟩ := DSymVerif.C03.decode_raw_valid r h
   obtain ⟨e1, e2, eop, ev⟩ := DSymVerif.C03.agrees_tables hag hs.toValidTables
-  refine ⟨ds, hdec, hs, hsz, hdim, e1.symm, e2.symm, ?_, ?_⟩
+  refine ⟨ds, hdec, hs, hsz, hdim, (CanonP.conn_iff_isConnected hs.set).1 hcon, e1.symm, e2.symm, ?_, ?_⟩
   · intro i d hi h1 h2
     rw [gOf_op]
     exact eop i d hi h1 h2
